@@ -363,3 +363,53 @@ def run_marking_case(mi, oi, ki, form, v21, revoked):
         return False
     stix2.parse(j1, allow_custom=False, version="2.1" if v21 else "2.0")
     return True
+
+
+# ---------------------------------------------------------------- objects with custom content are versionable like any other
+CUSTOM_STYLES = [
+    ("x_ keyword with allow_custom", lambda cls, kw: cls(allow_custom=True, x_note="n", **kw)),
+    ("custom_properties argument", lambda cls, kw: cls(custom_properties={"x_note": "n", "x_num": 0}, **kw)),
+    ("custom_properties with a false-y value only", lambda cls, kw: cls(custom_properties={"x_flag": False}, **kw)),
+    ("parsed with allow_custom", lambda cls, kw: stix2.parse(dict(json.loads(cls(**kw).serialize()), x_note="n"), allow_custom=True)),
+    ("custom content only inside an embedded object", lambda cls, kw: cls(allow_custom=True, external_references=[{"source_name": "s", "external_id": "1", "x_in": 1}], **kw)),
+]
+NCS = len(CUSTOM_STYLES)
+CUSTOM_OPS = [lambda o: o.new_version(name="changed"), lambda o: o.revoke(), lambda o: versioning.new_version(o, x_note=None),
+              lambda o: versioning.new_version(o, x_more=1, allow_custom=True), lambda o: o.new_version(name="a").new_version(name="b").revoke(),
+              lambda o: stix2.markings.add_markings(o, MK1).new_version(name="c")]
+NCO = len(CUSTOM_OPS)
+
+
+def custom_content_versions(si: int, oi: int, v21: bool) -> bool:
+    """
+    pre: 0 <= si < NCS and 0 <= oi < NCO
+    post: _
+    """
+    si, oi, v21 = pick(si, NCS), pick(oi, NCO), pickb(v21)
+    with Native():
+        ok = run_custom_version_case(si, oi, v21)
+    V.reached()
+    return ok
+
+
+def run_custom_version_case(si, oi, v21):
+    cls = stix2.v21.Malware if v21 else stix2.v20.Malware
+    kw = dict(id=ID, name="x", created=BASE - dt.timedelta(days=1), modified=BASE)
+    kw.update({"is_family": False} if v21 else {"labels": ["l"]})
+    o = CUSTOM_STYLES[si][1](cls, kw)
+    before = o.serialize()
+    try:
+        n = CUSTOM_OPS[oi](o)
+    except (STIXError, ValueError, TypeError):
+        return False                             # a legal change set on a versionable object must produce a new version
+    if o.serialize() != before:
+        return False
+    j0, j1 = json.loads(before), json.loads(n.serialize())
+    if not utils.parse_into_datetime(j1["modified"]) > utils.parse_into_datetime(j0["modified"]):
+        return False
+    for k in ("type", "id", "created"):
+        if j0[k] != j1[k]:
+            return False
+    # custom content that was not named in the change set is still there
+    keep = [k for k in j0 if k.startswith("x_") and not (oi == 2 and k == "x_note")]
+    return all(j1.get(k) == j0[k] for k in keep) and (oi != 2 or "x_note" not in j1)
